@@ -16,6 +16,25 @@ svalue_t catch_value = { .type = T_NUMBER };
 
 static error_context_t *current_error_context = 0;
 
+#ifdef NEOLITH_VERIF
+/* verification hook H2 (accessors): head and depth of the static error-context chain.
+ * The walk is bounded so that a dangling chain cannot hang the harness. */
+error_context_t *verif_error_context_head (void) {
+  return current_error_context;
+}
+
+int verif_error_context_depth (void) {
+  int depth = 0;
+  error_context_t *ec = current_error_context;
+  while (ec && depth < 100000)
+    {
+      depth++;
+      ec = ec->save_context;
+    }
+  return depth;
+}
+#endif
+
 /**
  * @brief Save the current virtual machine execution context as current error
  * handling context (after push previous error handling context onto the stack).
